@@ -3,6 +3,7 @@ package hx
 import (
 	"fmt"
 	"math/rand"
+	"os"
 	"strings"
 	"time"
 
@@ -103,6 +104,7 @@ func RunReal(src string, o RunOpts) (res Result, ser string, globals string) {
 		return res, "", ""
 	}
 	ser = s
+	noteLastProgram(src)
 	err := ev.Eval(prog)
 	if err == nil {
 		for _, e := range o.Events {
@@ -248,4 +250,13 @@ func DiffAt(a, b string) string {
 		return s[lo:hi]
 	}
 	return fmt.Sprintf("first difference at %d\n  real : …%s\n  model: …%s", i, cut(a), cut(b))
+}
+
+// noteLastProgram keeps the program that is about to run in the scratch directory: a fatal error of
+// the Go runtime (stack exhaustion, out of memory) cannot be recovered, so when the harness process
+// dies bin/check finds the input that killed it there.
+func noteLastProgram(src string) {
+	if dir := os.Getenv("VERIF_SCRATCH"); dir != "" {
+		_ = os.WriteFile(dir+"/last-program.evy", []byte(src), 0o644)
+	}
 }
